@@ -48,10 +48,12 @@ def main(argv=None):
         if not ctx.quick:
             from . import coq as _coq
             ctx.note('coqchk (independent re-check of the compiled development)')
-            r = _coq.coqchk(pid)
-            ctx.checker_cmds.append(r['cmd'])
-            ctx.obligation('coqchk:' + pid, r['ok'], 'axioms: %r' % (r['axioms'],) if r['ok'] else r['tail'])
-            ctx.extra['coqchk_axioms'] = r['axioms']
+            from .ctx import SHARED_PROPS
+            for x in [pid] + [y for y in SHARED_PROPS.get(pid, []) if os.path.exists(os.path.join(_coq.COQDIR, 'Props', y + '.v'))]:
+                r = _coq.coqchk(x)
+                ctx.checker_cmds.append(r['cmd'])
+                ctx.obligation('coqchk:' + x, r['ok'], 'axioms: %r' % (r['axioms'],) if r['ok'] else r['tail'])
+                ctx.extra['coqchk_axioms' if x == pid else 'coqchk_axioms_' + x] = r['axioms']
         ctx.note('correspondence + monitors')
         mod.correspondence(ctx)
         if hasattr(mod, 'known'):
